@@ -16,6 +16,8 @@ type Event struct {
 	OK       *Term
 	Fn       string
 	Args     []Val
+	Heap     map[string]*Term // heap when the call started (argument binders of a row are read in this heap)
+	Snaps    map[int][]Val // short slice arguments: their elements at the time of the call
 	ArgNames []string // go of a closure: names of the captured variables (parallel to the leading Args)
 	Res      []Val
 	Guarded  bool // part of a select that also waits on ctx.Done (or the ctxdone case itself)
@@ -317,9 +319,13 @@ func (st *State) newRef(label string) *Term {
 	freshCtr++
 	r := UniqueSym(fmt.Sprintf("ref!%s!%d", sanitize(label), freshCtr))
 	st.assume(Gt(r, st.alloc))
+	refPrev[r.Key()] = st.alloc
 	st.alloc = r
 	return r
 }
+
+// refPrev: allocation watermark just before a fresh reference was created (global: ref symbols are unique)
+var refPrev = map[string]*Term{}
 
 // a fresh opaque value id (slices, interfaces, struct values, strings): not a heap reference
 func freshId(label string) *Term {
